@@ -226,3 +226,69 @@ Corollary hv_last_2d rx ry l :
 Proof.
   unfold hv_last. cbn [rev app]. rewrite map_map. cbn [rev app]. apply hv_2d_swap.
 Qed.
+
+(* ------------------------------------------------------------------ *)
+(* slicing on the last coordinate: hv_last = hv for points of the right dimension *)
+(* ------------------------------------------------------------------ *)
+Definition dim_ok (n : nat) (S : list point) : Prop := Forall (fun p => length p = n) S.
+
+Lemma slice_dim_ok n z pts : dim_ok (Datatypes.S n) pts -> dim_ok n (slice z pts).
+Proof.
+  unfold dim_ok. rewrite !Forall_forall. intros H q Hq. apply in_slice in Hq.
+  destruct Hq as (p & Hp & _ & ->). specialize (H p Hp). destruct p; cbn in *; lia.
+Qed.
+
+(* apply a transformation to the tails *)
+Lemma hv_tail_congr (f : point -> point) n a ref1 ref2 pts :
+  (forall S, dim_ok n S -> hv ref2 (map f S) == hv ref1 S) ->
+  dim_ok (Datatypes.S n) pts ->
+  hv (a :: ref2) (map (fun q => hd0 q :: f (tl q)) pts) == hv (a :: ref1) pts.
+Proof.
+  intros H D. rewrite !hv_cons.
+  assert (axis0 a (map (fun q => hd0 q :: f (tl q)) pts) = axis0 a pts) as ->.
+  { unfold axis0, breaks. rewrite map_map. reflexivity. }
+  apply integrate_ext. intro z.
+  assert (slice z (map (fun q => hd0 q :: f (tl q)) pts) = map f (slice z pts)) as ->.
+  { unfold slice. clear D. induction pts as [|p l IH]; [reflexivity|]. cbn [map filter hd0].
+    destruct (Qle_bool (hd0 p) z); cbn [map tl]; rewrite IH; reflexivity. }
+  apply H. apply slice_dim_ok. auto.
+Qed.
+
+Definition rotl (p : point) : point := tl p ++ [hd0 p].
+
+Lemma hv_rot : forall ref r pts,
+  dim_ok (Datatypes.S (length ref)) pts -> hv (ref ++ [r]) (map rotl pts) == hv (r :: ref) pts.
+Proof.
+  induction ref as [|a ref IH]; intros r pts D.
+  - cbn [app]. assert (map rotl pts = pts) as ->; [|reflexivity].
+    unfold dim_ok in D. induction D as [|p l Hp D IHD]; [reflexivity|]. cbn [map]. rewrite IHD. f_equal.
+    destruct p as [|x [|y t]]; cbn in Hp; try discriminate. reflexivity.
+  - cbn [app].
+    assert (E : map rotl pts = map (fun q => hd0 q :: rotl (tl q)) (map swap01 pts)).
+    { rewrite map_map. unfold dim_ok in D. rewrite Forall_forall in D. apply map_ext_in. intros p Hp.
+      specialize (D p Hp). destruct p as [|x [|y t]]; cbn in D; try lia. reflexivity. }
+    rewrite E.
+    assert (D' : dim_ok (Datatypes.S (Datatypes.S (length ref))) (map swap01 pts)).
+    { unfold dim_ok in *. rewrite Forall_forall in *. intros q Hq. apply in_map_iff in Hq.
+      destruct Hq as (p & <- & Hp). specialize (D p Hp). destruct p as [|x [|y t]]; cbn in *; lia. }
+    rewrite (hv_tail_congr rotl (Datatypes.S (length ref)) a (r :: ref) (ref ++ [r])); auto.
+    apply hv_swap01.
+Qed.
+
+Theorem hv_rev : forall ref pts, dim_ok (length ref) pts -> hv (rev ref) (map (@rev Q) pts) == hv ref pts.
+Proof.
+  induction ref as [|r ref IH]; intros pts D.
+  - cbn [rev]. destruct pts; reflexivity.
+  - cbn [rev].
+    assert (E : map (@rev Q) pts = map rotl (map (fun p => hd0 p :: rev (tl p)) pts)).
+    { rewrite map_map. unfold dim_ok in D. rewrite Forall_forall in D. apply map_ext_in. intros p Hp.
+      specialize (D p Hp). destruct p as [|x t]; cbn in D; try lia. reflexivity. }
+    rewrite E. rewrite hv_rot.
+    + apply (hv_tail_congr (@rev Q) (length ref)); auto.
+    + rewrite rev_length. unfold dim_ok in *. rewrite Forall_forall in *. intros q Hq.
+      apply in_map_iff in Hq. destruct Hq as (p & <- & Hp). specialize (D p Hp).
+      destruct p as [|x t]; cbn in *; try lia. rewrite rev_length. lia.
+Qed.
+
+Corollary hv_last_is_hv ref pts : dim_ok (length ref) pts -> hv_last ref pts == hv ref pts.
+Proof. apply hv_rev. Qed.
